@@ -415,7 +415,10 @@ func (x *c17FineRun) spawn(op c17MOp) *c17FThread {
 				t.gcOrder[i] = c17PeerIdx(id)
 			}
 			if len(bl) > 0 {
-				x.hot = t.gcOrder[0]
+				x.hot = t.gcOrder[0] // smallest index: the choice must not depend on Go's map iteration order
+				for _, i := range t.gcOrder {
+					x.hot = min(x.hot, i)
+				}
 				x.blacklisting = true
 				m.blacklistPeers(reasonInvalidHash, bl...)
 			}
@@ -489,14 +492,11 @@ func (x *c17FineRun) segment(t *c17FThread, stop string) {
 	}
 	watchdog := time.NewTimer(c17Watchdog)
 	defer watchdog.Stop()
-	hung := false
+	hung, inverted := false, false
 	if gate {
 	poll:
 		for {
 			select {
-			case <-x.yield: // not reachable: no callback carries this label
-				q.Unlock()
-				break poll
 			case <-t.done:
 				t.finished = true
 				q.Unlock()
@@ -508,13 +508,22 @@ func (x *c17FineRun) segment(t *c17FThread, stop string) {
 			default:
 			}
 			if c17MutexWaiters(q) > 0 {
+				if !x.m.nodes.m.TryRLock() {
+					// the call sleeps on the queue mutex WITH pool.m held: the opposite of the order the cool-down timer uses
+					// (queue mutex, then pool.m). Let it go on; the finding is reported below.
+					inverted, gate = true, false
+					q.Unlock()
+					break poll
+				}
+				x.m.nodes.m.RUnlock()
 				t.gated, t.parked, x.gateBusy = true, "LNodesQ", true
 				x.r.Count("fine-hook", "LNodesQ")
 				break poll
 			}
 			time.Sleep(10 * time.Microsecond)
 		}
-	} else {
+	}
+	if !gate && !t.finished && !hung {
 		select {
 		case <-x.yield:
 		case <-t.done:
@@ -524,6 +533,9 @@ func (x *c17FineRun) segment(t *c17FThread, stop string) {
 		}
 	}
 	x.cur = nil
+	if inverted {
+		x.fviolation("deadlock-lock-cycle-pool.m<->timedQueue.mu", fmt.Sprintf("%s takes the general pool's queue mutex while it holds pool.m; the cool-down timer takes them the other way round (queue mutex, then pool.m in afterCooldown): the two deadlock when they meet; schedule:%s", t.call.Op, x.schedule()))
+	}
 	if hung {
 		c17WatchdogHits++
 		x.unstable = true
@@ -750,7 +762,7 @@ func (x *c17FineRun) finishFine(gs *c17Groups, idx int) {
 	}
 	rep := x.fseq
 	rep.Ops = x.fexec
-	gs.get(idx).Case(term, c17FCase{Seq: rep, Events: events, Outs: outs, Final: final}, key)
+	gs.get(2*(idx%2)).Case(term, c17FCase{Seq: rep, Events: events, Outs: outs, Final: final}, key) // two case files
 }
 
 // ---- schedules
